@@ -98,7 +98,9 @@ func genC01(tier string, run int, r *simcore.Rand) *harness.Plan {
 	canRestart := wantRestart && !hasType(root, "memory")
 	nops := r.Range(8, 60)
 	ops := genOps(r, nops, pool, specs, canRestart, weights)
-	p := &harness.Plan{Mode: "exact", Config: harness.MustJSON(cfg)}
+	p := &harness.Plan{Mode: "exact", Config: harness.MustJSON(cfg), Bubble: true}
+	p.LockYield = []int{0, 0, 20, 200, 1000}[r.Intn(5)]
+	p.Sticky = []int{0, 500, 900}[r.Intn(3)]
 	for _, op := range ops {
 		p.Ops = append(p.Ops, harness.MustJSON(op))
 	}
@@ -196,6 +198,26 @@ func (s *session) preseed(ctx context.Context) error {
 	return nil
 }
 
+// do executes one client operation. Under the scheduler the operation is a
+// task and the call returns at quiescence: the operation has returned and
+// every goroutine it left behind (replica stragglers, cache population) has
+// finished or is waiting on a timer.
+func (s *session) do(ctx context.Context, op sim.Op) (sim.Result, error) {
+	var res sim.Result
+	err := s.task(func() { res = sim.ExecOp(ctx, s.sto, s.pool, op) })
+	return res, err
+}
+
+// task runs f as a scheduled task and returns at quiescence.
+func (s *session) task(f func()) error {
+	if s.rc.Sched == nil {
+		f()
+		return nil
+	}
+	s.rc.Sched.Go("c0", f)
+	return s.rc.Sched.Run()
+}
+
 func shapeKey(cfg *Config, ops []sim.Op, extra string) string {
 	var sb strings.Builder
 	sb.WriteString(cfg.Root.Shape())
@@ -238,12 +260,21 @@ func execExact(rc *harness.RunCtx, p *harness.Plan, cfg *Config, ops []sim.Op) *
 		out.Inconclusive = "session: " + err.Error()
 		return out
 	}
-	if err := s.preseed(ctx); err != nil {
-		out.Inconclusive = "preseed: " + err.Error()
+	var perr, berr error
+	if herr := s.task(func() {
+		if perr = s.preseed(ctx); perr == nil {
+			berr = s.build()
+		}
+	}); herr != nil {
+		out.Inconclusive = "setup never finished: " + herr.Error()
 		return out
 	}
-	if err := s.build(); err != nil {
-		out.Inconclusive = "build: " + err.Error()
+	if perr != nil {
+		out.Inconclusive = "preseed: " + perr.Error()
+		return out
+	}
+	if berr != nil {
+		out.Inconclusive = "build: " + berr.Error()
 		return out
 	}
 	fail := func(i int, v string) *harness.Outcome {
@@ -260,13 +291,22 @@ func execExact(rc *harness.RunCtx, p *harness.Plan, cfg *Config, ops []sim.Op) *
 			}
 		}
 		if op.Kind == "restart" {
-			s.world.Restart(true)
-			if err := s.build(); err != nil {
+			var err error
+			if herr := s.task(func() {
+				s.world.Restart(true)
+				err = s.build()
+			}); herr != nil {
+				return fail(i, "restart never finished: "+herr.Error())
+			}
+			if err != nil {
 				return fail(i, "restart: re-creating the store over its own durable state failed: "+err.Error())
 			}
 			continue
 		}
-		res := sim.ExecOp(ctx, s.sto, s.pool, op)
+		res, herr := s.do(ctx, op)
+		if herr != nil {
+			return fail(i, op.String()+": operation never returned: "+herr.Error())
+		}
 		if v := s.model.Check(op, res, false); len(v) > 0 {
 			return fail(i, v[0])
 		}
@@ -280,12 +320,15 @@ func execExact(rc *harness.RunCtx, p *harness.Plan, cfg *Config, ops []sim.Op) *
 	}
 	final = append(final, sim.Op{Kind: "stat", B: all})
 	for _, op := range final {
-		res := sim.ExecOp(ctx, s.sto, s.pool, op)
+		res, herr := s.do(ctx, op)
+		if herr != nil {
+			return fail(len(ops), op.String()+": operation never returned: "+herr.Error())
+		}
 		if v := s.model.Check(op, res, false); len(v) > 0 {
 			return fail(len(ops), "closing sweep: "+v[0])
 		}
 	}
-	s.world.Restart(true)
+	s.task(func() { s.world.Restart(true) })
 	out.ShapeKey = shapeKey(cfg, ops, "")
 	out.Nontrivial = len(ops) >= 3
 	out.Reached = rc.Env.Reached
